@@ -96,8 +96,17 @@ def gen(seed):
         if rng.random() < 0.15:
             ops.append(['toggle', rng.randrange(nreg)])
         ops.append(['pk', pk[0], pk[1]])
+    final_close = None
+    if regs and rng.random() < 0.25:
+        # while the last packet is being dispatched one of its callbacks closes the link, or the driver thread reports a
+        # link error: the remaining callbacks still get that packet
+        i = rng.randrange(nreg)
+        r = regs[i]
+        h = ((r['port'] & 0xF) << 4) | (rng.randrange(4) << 2) | (r['ch'] & 3)
+        ops.append(['pk', h, [rng.randrange(256) for _ in range(rng.choice([0, 3, 30]))]])
+        final_close = {'reg': i, 'how': rng.choice(['close_link', 'link_error'])}
     return {'seed': seed, 'scenario': 'dispatch', 'knobs': knobs, 'regs': regs, 'ops': ops,
-            'all_cbs': rng.choice([0, 1, 2]), 'burst': rng.random() < 0.5}
+            'all_cbs': rng.choice([0, 1, 2]), 'burst': rng.random() < 0.5, 'final_close': final_close}
 
 
 def directed(tier):
@@ -141,6 +150,16 @@ def directed(tier):
                                 'cb': 6}],
                       'ops': [['pk', h, [h]] for h in range(h0, h0 + 64)],
                       'knobs': {'line_mean': 0, 'p_stall': 0.0}, 'all_cbs': 1, 'burst': True})
+    # the link is torn down by / while the callback at position pos of five is handling the last packet
+    for how in ('close_link', 'link_error'):
+        for pos in range(5):
+            n += 1
+            regs = [{'kind': 'header', 'port': 9, 'ch': 0, 'cm': 0, 'pm': [0xFF, 0x0F, 0x1F, 0x2F, 0x4F][i], 'cb': i,
+                     'initial': True, 'script': {}} for i in range(5)]
+            plans.append({'seed': 950000 + n, 'scenario': 'directed-teardown-during-dispatch', 'regs': regs,
+                          'ops': [['pk', 0x90, [1, 2]], ['pk', 0x91, [3]]],
+                          'knobs': {'line_mean': 0, 'p_stall': 0.0}, 'all_cbs': 1, 'burst': False,
+                          'final_close': {'reg': pos, 'how': how}})
     return plans
 
 
@@ -167,6 +186,8 @@ def execute(ctx):
     count = [0] * n
     st = {}
     raised = [0]
+
+    n_pk = sum(1 for op in plan['ops'] if op[0] == 'pk')
 
     def scenario():
         SimLink = w.install()
@@ -206,6 +227,18 @@ def execute(ctx):
                 count[i] += 1
                 deliveries.append((cur['pk'], i, pk.header, bytes(pk.data)))
                 ctx.obs('deliver', cur['pk'], i)
+                fc = plan.get('final_close')
+                if fc and fc['reg'] == i and cur['pk'] == n_pk - 1 and not st.get('closing'):
+                    st['closing'] = True
+                    ctx.probe('link torn down during the dispatch of a packet (%s)' % fc['how'])
+                    if fc['how'] == 'close_link':
+                        cf.close_link()
+                    else:
+                        t = P.SimThread(target=lambda: cf._link_error_cb('simulated link failure'), name='driver-error')
+                        t.daemon = True
+                        t.start()
+                        common.wait_until(sim, lambda: cf.link is None, 2.0, 0.001)
+                    st['closed_done'] = True
                 for act, j in regs[i]['script'].get(str(k), []):
                     if act == 'add':
                         do_add(j)
@@ -262,9 +295,19 @@ def execute(ctx):
             return len(inbox) == 0 and ts.state == 'blocked' and ts.wait_what == 'simlink-inbox'
 
         def settle():
-            if not common.wait_until(sim, idle, 30.0, 0.001):
+            def gone():
+                # the link is gone: the dispatcher finishes the packet in hand and then has nothing to wait on
+                P.sim_sleep(0.5)
+                cur['pk'] = None
+                return True
+            if st.get('closing'):
+                common.wait_until(sim, lambda: st.get('closed_done'), 30.0, 0.001)
+                return gone()
+            if not common.wait_until(sim, lambda: idle() or st.get('closed_done'), 30.0, 0.001):
                 ctx.violation('5', 'dispatcher-stalled', 'packets not consumed within 30 s')
                 return False
+            if st.get('closing'):
+                return gone()
             cur['pk'] = None
             return True
 
